@@ -23,7 +23,7 @@ def handle (line : String) : String :=
     | some d =>
       let F : Cfg := { single := followedAttrs, list := followedListAttrs, sp := fun c => pySpaceTable.contains c }
       let fl := (kidsOf d.auto).map (fun e => (false, e))
-      let fc := closeLoop F (fl.length + 1) fl (collect F [d.styles, d.auto, d.body] [])
+      let fc := closeLoop F (fl.length + 1) fl (collect F [d.styles, d.body] [])
       let fs := closeLoop F (fl.length + 1) fl (collect F [d.master] [])
       "ok " ++ showStrs fc.1 ++ " | " ++ showBits (fc.2.map (·.1))
         ++ " | " ++ showStrs fs.1 ++ " | " ++ showBits (fs.2.map (·.1))
